@@ -1156,7 +1156,7 @@ def check_C03(ctx):
     ctx.cov["rule"] = FRAME_RULE
     ctx.assumptions = ["refreshing container = auto refresh; in manual mode only 'no output after Wait' is checked (the library "
                        "renders only when asked)"]
-    frames_check(ctx, {"OUT_CONTENT", "OUT_ROWS", "BAR_RENDER", "BAR_OP", "FINAL", "CT_FLUSHBAR", "HM_STATE", "OUT_UNEXPECTED", "RET_GET"},
+    frames_check(ctx, {"OUT_CONTENT", "OUT_ROWS", "BAR_RENDER", "BAR_OP", "FINAL", "CT_FLUSHBAR", "HM_STATE", "HM_END", "CT_EXIT", "OUT_UNEXPECTED", "RET_GET"},
                  M.c03_monitor, 200, 6000, CONT_DEPS | {"ContainerLife.v", "ContainerFlush.v", "Props/C03.v"})
     ctx.cov["rule"] += ("; opt family: what a finished bar shows with the on-complete / on-abort filler options (messages, clear), "
                         "filler middleware order, BarID, conditional bar and container option constructors, NopStyle, AddSpinner; containers of "
@@ -1170,6 +1170,9 @@ def check_C13(ctx):
     ctx.assumptions = ["text = whole newline-terminated lines", "writes accepted while a render delay is pending are outside the property"]
     frames_check(ctx, {"CT_IO", "OUT_TEXT", "OUT_UNEXPECTED", "CT_FRAME"}, M.c13_monitor, 300, 6000, CONT_DEPS | {"ContainerLife.v", "ContainerFlush.v", "ContainerOut.v", "Term.v", "Props/C13.v"},
                  nontrivial=lambda case, frames: any(" RET_WRITE " in l for l in case["trace"]))
+    ctx.cov["rule"] += ("; opt family (textonly): 1-4 lines written through an auto-refreshing container that never had a bar, then "
+                        "Wait / Shutdown / cancel: the output holds exactly those lines")
+    opt_check(ctx, {"textonly"})
 
 
 @check
